@@ -231,6 +231,13 @@ def run_stream(stream, profiles, seed, tier, extra_args=""):
             return r
         t0 = time.time()
         shutil.rmtree(d, ignore_errors=True)
+        # keep the cache small: at most 3 older result directories per stream
+        sroot = os.path.join(BUILD, "streams")
+        if os.path.isdir(sroot):
+            old = sorted((os.path.join(sroot, x) for x in os.listdir(sroot) if x.startswith(stream + "-")),
+                         key=lambda q: os.path.getmtime(q))
+            for q in old[:-3]:
+                shutil.rmtree(q, ignore_errors=True)
         os.makedirs(d)
         result = {"ok": False, "stream": stream, "evaluations": 0, "disagreements": [], "meta": {},
                   "build_error": None, "cached": False, "profiles": profiles}
